@@ -19,6 +19,15 @@ func init() {
 			for _, sc := range scen.Scenarios(tier) {
 				bound := 2
 				shards = 4
+				// the 48->256 grow loops over 256 slots (~1.5k points): bound 1 in the quick tier, 2 in thorough
+				if sc.Name == "private-2/n48up-n48up-prefilled" {
+					if tier == "thorough" {
+						shards = 16
+					} else {
+						bound = 1
+						shards = 1
+					}
+				}
 				// bound 3 multiplies the schedule count by ~n/3: only the two smallest scenarios get it
 				if tier == "thorough" && (sc.Name == "private-2/n4up-n4up" || sc.Name == "readers-2/alpha") {
 					bound = 3
